@@ -156,7 +156,7 @@ def gen_cases(out, tier, scratch):
                 cands = cands[:3]
             for g in cands:
                 for ya in (None, 0, 1):
-                    if len(sh) != 3 and ya == 1 and not thorough:
+                    if len(sh) not in (2, 3) and ya == 1 and not thorough:
                         continue
                     pix = np.arange(int(np.prod(sh)), dtype="int32").reshape(sh)
                     gbox = mk_gbox(g)
@@ -352,7 +352,7 @@ def make_image(cfg):
     g = mk_gbox((H, W), rotated=cfg.get("rotated", False), crs=spec, transform=cfg.get("transform"))
     yy, xx = np.meshgrid(np.arange(H), np.arange(W), indexing="ij")
     planes = []
-    for b in range(B if lay != "YX" else 1):
+    for b in range(B if lay not in ("YX", "XY") else 1):
         v = yy * 37 + xx * 5 + b * 1013 + 1
         if dt.kind == "f":
             v = v.astype(dt) * dt.type(0.25)
@@ -365,6 +365,8 @@ def make_image(cfg):
     yx = tuple(g.dimensions)
     if lay == "YX":
         pix, dims = planes[0], yx
+    elif lay == "XY":                              # 2-d array with dims ordered (x, y)
+        pix, dims = np.ascontiguousarray(planes[0].T), (yx[1], yx[0])
     elif lay == "BYX":
         pix, dims = np.stack(planes, 0), ("band", *yx)
     else:
@@ -376,6 +378,14 @@ def make_image(cfg):
         # pixel centres from plain arithmetic: origin (1000, 2000), pixel 4 x -4 (the numbers of mk_gbox)
         coords = {yx[0]: 2000.0 - 4.0 * (np.arange(H) + 0.5), yx[1]: 1000.0 + 4.0 * (np.arange(W) + 0.5)}
         arr = xr.DataArray(pix, dims=dims, coords=coords, attrs=attrs).odc.assign_crs(spec)
+    elif cfg.get("reassign"):
+        # the array arrives with another CRS under a CRS coordinate called old_name (grid_mapping encoding pointing at
+        # it, as after decoding a CF file); the user corrects the CRS with the public .odc.assign_crs()
+        ra = cfg["reassign"]
+        g_old = mk_gbox((H, W), rotated=cfg.get("rotated", False), crs=ra["old_crs"], transform=cfg.get("transform"))
+        arr = xr.DataArray(pix, dims=dims, coords=xr_coords(g_old, crs_coord_name=ra.get("old_name", "spatial_ref")), attrs=attrs)
+        arr.encoding["grid_mapping"] = ra.get("old_name", "spatial_ref")
+        arr = arr.odc.assign_crs(spec, **({"crs_coord_name": ra["new_name"]} if ra.get("new_name") else {}))
     else:
         arr = xr.DataArray(pix, dims=dims, coords=xr_coords(g), attrs=attrs)
     if derive == "stride2":
@@ -393,7 +403,10 @@ def make_image(cfg):
     else:
         want_tr = tuple(g.transform)[:6]
     vals = np.asarray(arr.values)
-    bands = vals[np.newaxis] if lay == "YX" else (vals if lay == "BYX" else vals.transpose(2, 0, 1))
+    if lay == "XY":
+        bands = vals.T[np.newaxis]
+    else:
+        bands = vals[np.newaxis] if lay == "YX" else (vals if lay == "BYX" else vals.transpose(2, 0, 1))
     return arr, g, bands, want_tr
 
 
@@ -446,7 +459,9 @@ def p_roundtrip(cfg):
             sh = gk.shape
             ov = (np.arange(sh[0] * sh[1]).reshape(sh) + 1000 * k) % 120
             ov = ov.astype(cfg["dtype"])
-            if cfg["layout"] == "BYX":
+            if cfg["layout"] == "XY":
+                ov = np.ascontiguousarray(ov.T)
+            elif cfg["layout"] == "BYX":
                 ov = np.stack([ov + b for b in range(cfg.get("B", 1))], 0).astype(cfg["dtype"])
             elif cfg["layout"] == "YXB":
                 ov = np.stack([ov + b for b in range(cfg.get("B", 1))], -1).astype(cfg["dtype"])
@@ -541,6 +556,8 @@ def roundtrip_pass(cfg, xx, g, bands, want_tr, ref_crs, kw, ext):
                 if ext is not None:
                     got = f.read()
                     want = ext[k].data
+                    if cfg["layout"] == "XY":
+                        want = want.T
                     want = want[np.newaxis] if want.ndim == 2 else (want if cfg["layout"] == "BYX" else want.transpose(2, 0, 1))
                     if got.shape != want.shape or not np.array_equal(got, want):
                         msgs.append(f"external overview {k} not preserved")
@@ -677,6 +694,21 @@ def roundtrip_configs(tier):
                       {"gdal_env": {"GDAL_DISABLE_READDIR_ON_OPEN": "TRUE"}},
                       {"gdal_env": {"GDAL_CACHEMAX": 1, "GDAL_NUM_THREADS": 2, "CPL_VSIL_CURL_ALLOWED_EXTENSIONS": ".tif"}},
                       {"os_env": {"GDAL_NUM_THREADS": "ALL_CPUS", "VSI_CACHE": "TRUE", "GDAL_TIFF_OVR_BLOCKSIZE": "256"}}]],
+        # one-row / one-column / one-pixel images on rotated grids (pixel-space labels, single label per axis)
+        dict(base, H=1, W=30, rotated=True), dict(base, H=30, W=1, rotated=True, dest="file"), dict(base, H=1, W=1, rotated=True),
+        dict(base, H=1, W=12, rotated=True, layout="BYX", B=2), dict(base, H=1, W=9, rotated=True, layout="YXB", B=3, overview_levels=[]),
+        dict(base, H=1, W=30, crs="epsg:4326", dtype="uint8", transform=small_pixel_transform(1e-5, 3.0)),
+        dict(base, H=1, W=20, crs="epsg:4326", dtype="uint8", transform=small_pixel_transform(1e-4, 0.0, 0.2), dest="file"),
+        # CRS corrected with .odc.assign_crs() on an array that already carries a CRS coordinate / grid_mapping encoding
+        dict(base, reassign={"old_crs": "epsg:32634", "old_name": "crs"}),
+        dict(base, reassign={"old_crs": "epsg:32634", "old_name": "crs", "new_name": "spatial_ref"}, dest="file"),
+        dict(base, reassign={"old_crs": "epsg:32634", "old_name": "spatial_ref"}, layout="BYX", B=2),
+        dict(base, reassign={"old_crs": "epsg:3577", "old_name": "proj", "new_name": "crs"}, H=16, W=24, external_overviews=[2]),
+        dict(base, reassign={"old_crs": "epsg:32634", "old_name": "crs", "new_name": "crs"}, crs=CUSTOM_CRS[0]),
+        dict(base, reassign={"old_crs": CUSTOM_CRS[0], "old_name": "crs"}, crs="epsg:32755", overview_levels=[2]),
+        # 2-d arrays with dims ordered (x, y)
+        dict(base, layout="XY"), dict(base, layout="XY", H=16, W=16, dtype="uint8"), dict(base, layout="XY", H=40, W=50, blocksize=16, use_windowed_writes=True),
+        dict(base, layout="XY", H=64, W=96, blocksize=32, external_overviews=[2, 4], dest="file"), dict(base, layout="XY", H=33, W=17, overview_levels=[2], rotated=True),
         # images exactly two pixels tall / wide; arrays whose registration lives in the coordinate labels only
         dict(base, H=2, W=32), dict(base, H=32, W=2, layout="BYX", B=2), dict(base, H=2, W=2, dtype="uint8"),
         dict(base, H=2, W=32, derive="stride2"),
@@ -767,10 +799,13 @@ def roundtrip_configs(tier):
             c["rotated"] = False
             if rng.random() < 0.4:
                 c[rng.choice(["H", "W"])] = 2
-        if min(c["H"], c["W"]) < 2:
-            # a rotated grid with a one-pixel side is not recovered from the DataArray coordinates
-            # (xarray geo-registration, property C09) - outside this property's generator
-            c["rotated"] = False
+        if lay == "YX" and rng.random() < 0.12 and "derive" not in c:
+            c["layout"] = "XY"
+        # (a one-label axis has no pixel size of its own, and assign_crs does not carry the GeoTransform over: >= 2 labels)
+        if rng.random() < 0.1 and "derive" not in c and min(c["H"], c["W"]) >= 2 \
+                and c.get("crs", "epsg:32633") not in ("epsg:4326", CUSTOM_CRS[6]):
+            c["reassign"] = {"old_crs": rng.choice(["epsg:32634", "epsg:3577", CUSTOM_CRS[0]]), "old_name": rng.choice(["crs", "spatial_ref", "proj"]),
+                             "new_name": rng.choice([None, None, "spatial_ref", "crs", "georef"])}
         if rng.random() < 0.5:
             c["blocksize"] = rng.choice([16, 17, 32, 48, 100, 256])
         r = rng.random()
